@@ -30,10 +30,23 @@ def c05a(prog, rep):
     if not rep.check(b is not None, R, "anchor:format_line", "format_line not found"):
         return
     try:
-        tb = Table(prog, b)
+        tb = Table(prog, b, inline=1, opaque=("find_optimal_solution", "get_level", "get_tokens", "get_line_type"))
     except TooComplex as e:
         rep.fail(R, "format_line-table", "format_line is no longer a loop-free classifier: %s" % e)
         return
+
+    def first_token_is_0(cons):
+        """the path condition says: the first token of the line is token 0 of the file (pattern `Some(0)` or `first() == Some(&0)`)"""
+        for c in cons:
+            if c[0] != "cond" or "first(" not in c[1]:
+                continue
+            if c[1].endswith("@Some.0") and c[2] == 0:
+                return True
+            if c[1].startswith("eq(") and c[1].endswith(",0)") and c[2] != 0:
+                return True
+            if c[1].startswith("ne(") and c[1].endswith(",0)") and c[2] == 0:
+                return True
+        return False
     seen = {"first-of-file": 0, "other": 0}
     bad = []
     for (cons, res), calls in zip(tb.rows, tb.calls):
@@ -41,7 +54,7 @@ def c05a(prog, rep):
         if not fos:
             continue
         a = [x.replace("call:", "").replace("place:", "").replace(" ", "") for x in fos[0]]
-        first_is_0 = any(c[0] == "cond" and c[1].endswith("@Some.0") and "first(" in c[1] and c[2] == 0 for c in cons)
+        first_is_0 = first_token_is_0(cons)
         ws_ok = len(a) >= 4 and a[1] in ("LineWhitespace(get_level(arg2.1),0)",)
         if first_is_0:
             seen["first-of-file"] += 1
@@ -58,12 +71,13 @@ def c05a(prog, rep):
 
 def c05b(prog, rep):
     R = "C05.b"
-    rs = prog.body(IOLF + "reconstruct_solution")
+    import layout
+    rs = prog.inlined(IOLF + "reconstruct_solution", keep=layout.RS_KEEP)
     if not rep.check(rs is not None, R, "anchor:reconstruct_solution", "reconstruct_solution not found"):
         return
     n = 0
     for f in ("newlines_before", "indentations_before", "continuations_before"):
-        for a in prog.field_accesses(FD, f, within={rs.npath}):
+        for a in prog.field_accesses(FD, f, bodies=[rs]):
             if not a[3].startswith("write"):
                 continue
             facts = [x for x in dominating_variant_facts(prog, rs, a[1]) if x[0].endswith(".decision") and x[1] == "is"]
